@@ -1474,3 +1474,51 @@ Proof.
       rewrite E. eexists. split; [reflexivity|].
       unfold live_count. rewrite filter_app. cbn [filter]. rewrite app_nil_r. apply live_count_freed.
 Qed.
+
+(* ------------------------------------------------------------------------------------------------ *)
+(* the same model with the code shape of libstrophe 0.14.0 as released (orig_variant) violates each statement;
+   the witnesses are the inputs of corpus/C16.txt *)
+
+Definition ex_st : astate := mkA 1 2 [105; 100] [[97]; [98]] [(0, [99])].
+Definition ex_blob30 : list Z := firstn 30 (encode (mkA 0 0 [83; 77; 73; 68; 53] [] [])).
+
+Lemma orig_tag_overread_refuted : restore_v orig_variant fresh_conn ex_blob30 = OOB.
+Proof. vm_compute. reflexivity. Qed.
+
+Lemma orig_missing_prev_refuted :
+  exists c, restore_v orig_variant fresh_conn (encode ex_st) = Ok (0, c) /\
+            dllb (c_heap c) None (sq_head c) [0; 1]%nat = None /\
+            fst (run [OpDrop Q_YOUNGEST] c) <> fst (run [OpDrop Q_YOUNGEST] (canon ex_st)).
+Proof. eexists. split; [vm_compute; reflexivity|]. split; [vm_compute; reflexivity|]. vm_compute. discriminate. Qed.
+
+Lemma orig_err_path_refuted :
+  exists c, restore_v orig_variant fresh_conn (firstn 38 (encode ex_st)) = Ok (EINVOP, c) /\
+            c_sm c = SmDangling /\ sq_head c <> None /\ sq_len c = 2 /\ release c = UAF /\
+            fst (run [OpConnect; OpSend [97]] c) = [ObNone].
+Proof.
+  eexists. split; [vm_compute; reflexivity|].
+  repeat split; try (vm_compute; reflexivity). vm_compute. discriminate.
+Qed.
+
+Lemma orig_trailing_refuted :
+  exists c, restore_v orig_variant fresh_conn (encode ex_st ++ [0]) = Ok (0, c).
+Proof. eexists. vm_compute. reflexivity. Qed.
+
+Lemma orig_idnul_refuted :
+  exists c, restore_v orig_variant fresh_conn (encode (mkA 1 2 [97; 0; 98] [] [])) = Ok (0, c) /\
+            abs_conn c = Ok (1, 2, [97], [], []).
+Proof. eexists. split; vm_compute; reflexivity. Qed.
+
+(* the hypotheses of the theorems are satisfiable, and the fixed model on the same witnesses *)
+Example wf_st_ex : wf_st ex_st.
+Proof.
+  unfold wf_st, ex_st, is_u32, wf_text, bytes, nul_free, is_byte. cbn [a_sent a_handled a_id a_unsent a_unacked fst snd].
+  repeat split; try lia; repeat constructor; try lia; cbn; try lia.
+Qed.
+
+Example fixed_on_witnesses :
+  restore_v fixed_variant fresh_conn ex_blob30 = Ok (EINVOP, clean_conn 0) /\
+  restore_v fixed_variant fresh_conn (firstn 38 (encode ex_st)) = Ok (EINVOP, clean_conn 2) /\
+  restore_v fixed_variant fresh_conn (encode ex_st ++ [0]) = Ok (EINVOP, clean_conn 3) /\
+  restore_v fixed_variant fresh_conn (encode (mkA 1 2 [97; 0; 98] [] [])) = Ok (EINVOP, clean_conn 0).
+Proof. repeat split; vm_compute; reflexivity. Qed.
